@@ -10,7 +10,7 @@ LEVEL = "model_checking"
 ANCHOR_PREFIXES = ["transform::Transformer::write_root_svg", "transform::process_tags", "transform::", "position::BoundingBox", "element::SvgElement::bbox", "context::",
                    "transform_attr::", "path::", "types::split_unit"]
 BOUNDS = ("root <svg> with every subset of {width, height, viewBox} supplied (concrete values), 1-3 top-level children from {rect, circle, ellipse, line, polyline, polygon, path (M L H V Z abs/rel, relative commands after z, several subpaths), "
-          "standalone text, box, point, g with translate (symbolic) / scale (0.5, 2, 0.5x2, -1x2, 1x3, 3x1, 1x1, 2x2, one-argument, -1, 1x-2, -2x1, translate+1x3) nested once, use of a shape, use of a symbol, "
+          "standalone text, box, point, g with translate (symbolic) / scale (0.5, 2, 0.5x2, -1x2, 1x3, 3x1, 1x1, 2x2, one-argument, -1, 1x-2, -2x1, translate+1x3, 1x3+translate, 3x1+translate, translate+-2x1+translate+1x2+translate) nested once, use of a shape, use of a symbol, "
           "shape or group with clip-path (clipPath in defs, before or after its use), defs/specs/symbol content, shape with generated text}; border in {0,3,5}, scale in {0.5,1,2}; positions k/2 in [-256,256], sizes k/2 in [0,128]; loop / for / if children, arcs and curves and seeded random path command sequences, settings supplied through several <config> elements")
 ASSUMPTIONS = ["E is recomputed from the output's own geometry for rendered elements (by id) and from the input values for the invisible <box>; generated text, points, defs/specs/symbol content are not counted",
                "a clipped element contributes the intersection with its clip path's content box, nothing when that is empty",
@@ -69,12 +69,16 @@ def kinds():
     K["gtrans1"] = lambda i, k0: (f'<g id="e{i}" transform="translate([[{k0}]])"><rect xy="[[{k0 + 1}]] 2" wh="[[{k0 + 2}]] 4"/></g>', [(10, *POS), (1, *POS), (3, *SZ)], [f"e{i}"], None)
     K["gneg"] = lambda i, k0: four(i, k0, '<g id="e{i}" transform="scale(-1 2)"><rect xy="{0} {1}" wh="{2} {3}"/></g>') + ([f"e{i}"], None)
     # group transforms: every combination of unit / non-unit / negative scale factors, alone and with a translation
-    def gsc(sx, sy, extra=""):
+    def gsc(sx, sy, extra="", post=""):
         tr = f"scale({sx} {sy})" if sy is not None else f"scale({sx})"
-        return lambda i, k0: four(i, k0, '<g id="e{i}" transform="' + extra + tr + '"><rect xy="{0} {1}" wh="{2} {3}"/></g>') + ([f"e{i}"], None)
+        return lambda i, k0: four(i, k0, '<g id="e{i}" transform="' + extra + tr + post + '"><rect xy="{0} {1}" wh="{2} {3}"/></g>') + ([f"e{i}"], None)
     for nm, sx, sy in (("gs-1-3", "1", "3"), ("gs-3-1", "3", "1"), ("gs-1-1", "1", "1"), ("gs-2-2", "2", "2"), ("gs-h", "0.5", None), ("gs-n1", "-1", None), ("gs-1-n2", "1", "-2"), ("gs-n2-1", "-2", "1")):
         K[nm] = gsc(sx, sy)
     K["gs-t-1-3"] = gsc("1", "3", "translate(3 4) ")
+    # a translation to the right of a non-uniform scale is scaled axis by axis
+    K["gs-1-3-t"] = gsc("1", "3", "", " translate(3 4)")
+    K["gs-3-1-t"] = gsc("3", "1", "", " translate(5, 10)")
+    K["gs-t-n2-1-t"] = gsc("-2", "1", "translate(1 2) ", " translate(3 4) scale(1 2) translate(0 6)")
     # paths: several sub-paths, closepath followed by relative commands (the current point returns to the sub-path start)
     K["path-zrel"] = lambda i, k0: (f'<path id="e{i}" d="M [[{k0}]] [[{k0 + 1}]] l [[{k0 + 2}]] 0 l 0 [[{k0 + 3}]] z m 5 5 l 10 0"/>', [(3, *POS), (14, *POS), (23, *SZ), (4 + 9 * i, *SZ)], [f"e{i}"], None)
     K["path-zrel2"] = lambda i, k0: (f'<path id="e{i}" d="M [[{k0}]] [[{k0 + 1}]] L [[{k0 + 2}]] [[{k0 + 3}]] Z l 7 9 M 1 2 h 3 z v 4"/>', [(3, *POS), (14, *POS), (23, *POS), (4 + 9 * i, *POS)], [f"e{i}"], None)
@@ -122,7 +126,7 @@ def kinds():
     return K
 
 
-MAIN = ["rect", "circle", "ellipse", "line", "polyline", "polygon", "path", "text", "box", "gtrans", "gscale", "gscale2", "gnest", "gnest2", "gtrans1", "gneg", "gs-1-3", "gs-3-1", "gs-1-1", "gs-2-2", "gs-h", "gs-n1", "gs-1-n2", "gs-n2-1", "gs-t-1-3", "path-zrel", "path-zrel2", "path-multi", "use", "use-clip", "use-x", "use-y", "use-0", "usesym", "clip", "clip-g", "clip-after", "clip-g-after", "shapetext", "loop-count", "loop-until", "loop-until1", "loop-while", "for", "if-true", "g-loop", "path-arc", "path-curves",
+MAIN = ["rect", "circle", "ellipse", "line", "polyline", "polygon", "path", "text", "box", "gtrans", "gscale", "gscale2", "gnest", "gnest2", "gtrans1", "gneg", "gs-1-3", "gs-3-1", "gs-1-1", "gs-2-2", "gs-h", "gs-n1", "gs-1-n2", "gs-n2-1", "gs-t-1-3", "gs-1-3-t", "gs-3-1-t", "gs-t-n2-1-t", "path-zrel", "path-zrel2", "path-multi", "use", "use-clip", "use-x", "use-y", "use-0", "usesym", "clip", "clip-g", "clip-after", "clip-g-after", "shapetext", "loop-count", "loop-until", "loop-until1", "loop-while", "for", "if-true", "g-loop", "path-arc", "path-curves",
         "path-rand0", "path-rand1", "path-rand2", "path-rand3", "path-rand4", "path-rand5"]
 NOTHING = ["point", "defs", "specs", "symbol", "if-false"]
 ROOTS = ["", 'width="20em"', 'height="3ex"', 'width="200"', 'height="10cm"', 'viewBox="0 0 100 50"', 'width="200" height="10cm"', 'width="30mm" viewBox="1 2 3 4"', 'height="77" viewBox="1 2 3 4"', 'width="1in" height="2in" viewBox="0 0 1 1"']
